@@ -3,7 +3,10 @@ package quic_test
 // C02: every parrot or derived spec yields a working connection, dial after dial.
 // E2: spec-driven clients against the in-tree server in a synctest bubble; the spec
 // (base fingerprint + knob deviations), the server configuration, the dial history on one
-// reused spec value and the fate of each of the first datagrams are explorer choices.
+// reused spec value and the fate of each of the first datagrams are explorer choices. The
+// server alphabet covers every way a conformant server makes the client send a second
+// flight: Retry and Version Negotiation (start over at CRYPTO offset 0) and HelloRetryRequest
+// (second ClientHello appended to the SAME Initial CRYPTO stream).
 
 import (
 	"context"
@@ -149,15 +152,69 @@ var c02Servers = []struct {
 	Name  string
 	Conf  func() *quic.Config
 	Retry bool
+	// Groups, when set, are the only TLS key exchange groups the server accepts
+	// (tls.Config.CurvePreferences). Every built-in fingerprint (and the standard library
+	// client) lists P-256 and P-384 in supported_groups but sends no key share for them, so
+	// such a server answers the first ClientHello with a HelloRetryRequest and the client has
+	// to CONTINUE its Initial CRYPTO stream with a second ClientHello behind the first one
+	// (RFC 8446 4.1.4, RFC 9001 4.1.3: same connection, same packet number space, no reset of
+	// the CRYPTO offset) - unlike Retry and Version Negotiation, which start over at offset 0.
+	Groups []tls.CurveID
 }{
-	{"default", func() *quic.Config { return &quic.Config{} }, false},
-	{"retry", func() *quic.Config { return &quic.Config{} }, true},
-	{"v2-preferred", func() *quic.Config { return &quic.Config{Versions: []quic.Version{quic.Version2, quic.Version1}} }, false},
-	{"few-streams", func() *quic.Config { return &quic.Config{MaxIncomingStreams: 2, MaxIncomingUniStreams: 1} }, false},
+	{"default", func() *quic.Config { return &quic.Config{} }, false, nil},
+	{"retry", func() *quic.Config { return &quic.Config{} }, true, nil},
+	{"v2-preferred", func() *quic.Config { return &quic.Config{Versions: []quic.Version{quic.Version2, quic.Version1}} }, false, nil},
+	{"few-streams", func() *quic.Config { return &quic.Config{MaxIncomingStreams: 2, MaxIncomingUniStreams: 1} }, false, nil},
 	// the server speaks QUIC v2 only: the client's first Initial (v1) is answered with Version
 	// Negotiation and the connection is re-created inside the same Dial
-	{"v2-only", func() *quic.Config { return &quic.Config{Versions: []quic.Version{quic.Version2}} }, false},
-	{"v2-only-retry", func() *quic.Config { return &quic.Config{Versions: []quic.Version{quic.Version2}} }, true},
+	{"v2-only", func() *quic.Config { return &quic.Config{Versions: []quic.Version{quic.Version2}} }, false, nil},
+	{"v2-only-retry", func() *quic.Config { return &quic.Config{Versions: []quic.Version{quic.Version2}} }, true, nil},
+	// servers that require a second ClientHello (HelloRetryRequest), alone and behind Retry /
+	// Version Negotiation
+	{"hrr-p256", func() *quic.Config { return &quic.Config{} }, false, []tls.CurveID{tls.CurveP256}},
+	{"hrr-p384", func() *quic.Config { return &quic.Config{} }, false, []tls.CurveID{tls.CurveP384}},
+	{"hrr-p256-retry", func() *quic.Config { return &quic.Config{} }, true, []tls.CurveID{tls.CurveP256}},
+	{"hrr-p256-v2-only", func() *quic.Config { return &quic.Config{Versions: []quic.Version{quic.Version2}} }, false, []tls.CurveID{tls.CurveP256}},
+}
+
+func c02ServerNames() []string {
+	var n []string
+	for _, s := range c02Servers {
+		n = append(n, s.Name)
+	}
+	return n
+}
+
+// c02Server returns the index of the named server configuration.
+func c02Server(name string) int {
+	for i, s := range c02Servers {
+		if s.Name == name {
+			return i
+		}
+	}
+	panic("no server " + name)
+}
+
+// c02MustNeedHRR: the spec offers every group the server insists on (otherwise it would lack
+// a parameter the peer requires, which the statement excludes) and sends a key share for
+// none of them, so that a completed handshake implies HelloRetryRequest + second ClientHello.
+func c02MustNeedHRR(s *quic.QUICSpec, groups []tls.CurveID) {
+	for _, g := range groups {
+		offered := false
+		for _, ext := range s.ClientHelloSpec.Extensions {
+			switch x := ext.(type) {
+			case *tls.SupportedCurvesExtension:
+				for _, c := range x.Curves {
+					offered = offered || c == g
+				}
+			case *tls.KeyShareExtension:
+				for _, ks := range x.KeyShares {
+					explore.Must(ks.Group != g, "spec already sends a key share for group %v: no HelloRetryRequest", g)
+				}
+			}
+		}
+		explore.Must(offered, "spec does not offer group %v", g)
+	}
 }
 
 type c02Config struct {
@@ -201,7 +258,11 @@ func c02Run(t *testing.T, cfg c02Config) c02Outcome {
 		srv := c02Servers[cfg.Server]
 		ctx, cancel := context.WithTimeout(context.Background(), 30*time.Second)
 		defer cancel()
-		ln, err := w.ListenWith(w.ServerTLS(false), srv.Conf(), func(tr *quic.Transport) {
+		stls := w.ServerTLS(false)
+		if srv.Groups != nil {
+			stls.CurvePreferences = srv.Groups
+		}
+		ln, err := w.ListenWith(stls, srv.Conf(), func(tr *quic.Transport) {
 			if srv.Retry {
 				tr.VerifySourceAddress = func(net.Addr) bool { return true }
 			}
@@ -224,6 +285,9 @@ func c02Run(t *testing.T, cfg c02Config) c02Outcome {
 					for _, k := range cfg.Knobs {
 						c02Knobs[k].Apply(&s, base.Name)
 					}
+					if srv.Groups != nil {
+						c02MustNeedHRR(&s, srv.Groups)
+					}
 					spec = &s
 				}
 				return spec
@@ -242,7 +306,7 @@ func c02Run(t *testing.T, cfg c02Config) c02Outcome {
 		}
 		one := func(dial int, dl sim.Dialer, keepOpen bool) {
 			cconf := &quic.Config{}
-			if strings.HasPrefix(srv.Name, "v2-only") {
+			if strings.Contains(srv.Name, "v2-only") {
 				cconf.Versions = []quic.Version{quic.Version1, quic.Version2}
 			}
 			conn, err := dl.Dial(ctx, w.ServerAddr, w.ClientTLS(), cconf)
@@ -439,12 +503,16 @@ func TestVerifC02(t *testing.T) {
 		}),
 		c02Part(t, "knobs-x-servers", func(e explore.Env) ([]c02Config, string) {
 			// every knob also against the servers that make the client re-create its Initial
-			// space (Retry) or the whole connection (Version Negotiation): a knob that works on a
-			// first flight may be mis-applied on the second
-			servers := []int{1, 4}
+			// space (Retry) or the whole connection (Version Negotiation), or that make it continue
+			// the Initial CRYPTO stream with a second ClientHello (HelloRetryRequest): a knob that
+			// works on a first flight may be mis-applied on the second
+			servers := []int{c02Server("retry"), c02Server("v2-only"), c02Server("hrr-p256")}
 			hist := []string{"seq3"}
 			if e.Thorough() {
-				servers = []int{1, 2, 3, 4, 5}
+				servers = nil
+				for i := 1; i < len(c02Servers); i++ {
+					servers = append(servers, i)
+				}
 				hist = []string{"seq3", "overlap"}
 			}
 			var cfgs []c02Config
@@ -457,7 +525,7 @@ func TestVerifC02(t *testing.T) {
 					}
 				}
 			}
-			return cfgs, fmt.Sprintf("every built-in QUICID x every one-knob deviation (%d knobs) x servers %v of {default, retry, v2-preferred, few-streams, v2-only, v2-only-retry} x dial histories %v on ONE reused spec value", len(c02Knobs)-1, servers, hist)
+			return cfgs, fmt.Sprintf("every built-in QUICID x every one-knob deviation (%d knobs) x servers %v of %v x dial histories %v on ONE reused spec value", len(c02Knobs)-1, servers, c02ServerNames(), hist)
 		}),
 		c02Part(t, "knobs-x-faults", func(e explore.Env) ([]c02Config, string) {
 			// every knob with a loss early in dial 1: what a knob pins for the first flight
@@ -468,17 +536,30 @@ func TestVerifC02(t *testing.T) {
 				slots = append(slots, sim.Slot{Dir: sim.S2C, Idx: 1}, sim.Slot{Dir: sim.C2S, Idx: 2}, sim.Slot{Dir: sim.S2C, Idx: 2})
 				fates = []sim.Fate{sim.Drop, sim.Delay, sim.FlipMid}
 			}
+			// against a server that asks for a second ClientHello the client's second flight sits
+			// one or two datagrams further along
+			hrrSlots := append(append([]sim.Slot{}, slots...), sim.Slot{Dir: sim.C2S, Idx: 2}, sim.Slot{Dir: sim.S2C, Idx: 1})
+			if e.Thorough() {
+				hrrSlots = append(append([]sim.Slot{}, slots...), sim.Slot{Dir: sim.C2S, Idx: 3}, sim.Slot{Dir: sim.S2C, Idx: 3})
+			}
+			hrr := c02Server("hrr-p256")
 			var cfgs []c02Config
 			for _, b := range c02SpecBases() {
 				for k := 1; k < len(c02Knobs); k++ {
-					for _, sl := range slots {
-						for _, f := range fates {
-							cfgs = append(cfgs, c02Config{Base: b, Knobs: []int{k}, Server: 0, History: "seq3", Seed: seed(e), Faults: sim.FaultMap{{Slot: sl, Fate: f}}})
+					for _, srv := range []int{0, hrr} {
+						sls := slots
+						if srv == hrr {
+							sls = hrrSlots
+						}
+						for _, sl := range sls {
+							for _, f := range fates {
+								cfgs = append(cfgs, c02Config{Base: b, Knobs: []int{k}, Server: srv, History: "seq3", Seed: seed(e), Faults: sim.FaultMap{{Slot: sl, Fate: f}}})
+							}
 						}
 					}
 				}
 			}
-			return cfgs, fmt.Sprintf("every built-in QUICID x every one-knob deviation (%d knobs) x 1 fault %v on one of the datagrams %v of dial 1, 3 sequential dials on ONE reused spec value", len(c02Knobs)-1, fates, slots)
+			return cfgs, fmt.Sprintf("every built-in QUICID x every one-knob deviation (%d knobs) x 1 fault %v on one of the datagrams %v of dial 1 against the default server, and on one of %v against the server that demands a second ClientHello (hrr-p256), 3 sequential dials on ONE reused spec value", len(c02Knobs)-1, fates, slots, hrrSlots)
 		}),
 		c02Part(t, "servers-x-bases", func(e explore.Env) ([]c02Config, string) {
 			var cfgs []c02Config
@@ -487,7 +568,7 @@ func TestVerifC02(t *testing.T) {
 					cfgs = append(cfgs, c02Config{Base: b, Knobs: nil, Server: s, History: "seq3", Seed: seed(e)})
 				}
 			}
-			return cfgs, "every base (plain, UTransport without spec, 7 QUICIDs) x server configuration {default, Retry required, v2 preferred, few streams} x 3 sequential dials"
+			return cfgs, fmt.Sprintf("every base (plain, UTransport without spec, 7 QUICIDs) x server configuration %v (hrr-*: the server accepts one key exchange group only, one that every base offers without a key share, so it answers with HelloRetryRequest and the client continues the Initial CRYPTO stream with a second ClientHello) x 3 sequential dials", c02ServerNames())
 		}),
 		c02Part(t, "faults-x-bases", func(e explore.Env) ([]c02Config, string) {
 			n := [2]int{6, 6}
@@ -497,11 +578,13 @@ func TestVerifC02(t *testing.T) {
 			}
 			var cfgs []c02Config
 			for b := range c02Bases {
-				for _, m := range sim.AllFaultMaps(n, c02Fates, k) {
-					if len(m) == 0 {
-						continue
+				for _, srv := range []int{0, c02Server("hrr-p256")} {
+					for _, m := range sim.AllFaultMaps(n, c02Fates, k) {
+						if len(m) == 0 {
+							continue
+						}
+						cfgs = append(cfgs, c02Config{Base: b, Server: srv, History: "seq3", Seed: seed(e), Faults: m})
 					}
-					cfgs = append(cfgs, c02Config{Base: b, Server: 0, History: "seq3", Seed: seed(e), Faults: m})
 				}
 			}
 			if e.Thorough() {
@@ -512,7 +595,7 @@ func TestVerifC02(t *testing.T) {
 							cfgs = append(cfgs, c02Config{Base: b, Server: 0, History: "seq3", Seed: seed(e), Faults: m})
 						}
 					}
-					for _, srv := range []int{1} {
+					for _, srv := range []int{c02Server("retry"), c02Server("hrr-p384"), c02Server("hrr-p256-retry"), c02Server("hrr-p256-v2-only")} {
 						for _, m := range sim.AllFaultMaps([2]int{6, 6}, small, 1) {
 							if len(m) == 1 {
 								cfgs = append(cfgs, c02Config{Base: b, Server: srv, History: "seq3", Seed: seed(e), Faults: m})
@@ -521,7 +604,7 @@ func TestVerifC02(t *testing.T) {
 					}
 				}
 			}
-			return cfgs, fmt.Sprintf("every base x every fault map with 1 fault (%d fates) among the first %d datagrams of each direction of dial 1 (thorough: 2 faults from {drop,dup,delay}, and 1 fault with Retry), 3 sequential dials", len(c02Fates), n[0])
+			return cfgs, fmt.Sprintf("every base x servers {default, hrr-p256 (HelloRetryRequest: second ClientHello)} x every fault map with 1 fault (%d fates) among the first %d datagrams of each direction of dial 1 (thorough: 2 faults from {drop,dup,delay} against the default server, and 1 fault with retry / hrr-p384 / hrr-p256-retry / hrr-p256-v2-only), 3 sequential dials", len(c02Fates), n[0])
 		}),
 	}
 	explore.Main("C02", parts, func(msg string) { t.Fatal(msg) })
